@@ -12,6 +12,7 @@ import (
 	"github.com/gofrs/uuid"
 	"github.com/ory/x/configx"
 	"github.com/ory/x/logrusx"
+	"github.com/ory/x/networkx"
 	"github.com/spf13/pflag"
 
 	"github.com/ory/keto/internal/check"
@@ -27,9 +28,18 @@ type tenantKey struct{}
 
 type tenantCtxer struct {
 	byTenant map[string]*configx.Provider
+	// tenants with a network of their own (the others share the registry's)
+	netByTenant map[string]uuid.UUID
 }
 
-func (c *tenantCtxer) Network(_ context.Context, n uuid.UUID) uuid.UUID { return n }
+func (c *tenantCtxer) Network(ctx context.Context, n uuid.UUID) uuid.UUID {
+	if t, ok := ctx.Value(tenantKey{}).(string); ok {
+		if id, ok := c.netByTenant[t]; ok {
+			return id
+		}
+	}
+	return n
+}
 
 func (c *tenantCtxer) Config(ctx context.Context, def *configx.Provider) *configx.Provider {
 	if t, ok := ctx.Value(tenantKey{}).(string); ok {
@@ -46,7 +56,7 @@ var hcheckOPLNoDoc = hcheckOPL[:strings.Index(hcheckOPL, "class Doc implements")
 // newTenantAPIEnv builds the registry through driver.NewDefaultRegistry with the
 // contextualizer; the returned environment's ctx is tenant A's.
 func newTenantAPIEnv(t testing.TB) (envA, envB *apiEnv, release func()) {
-	envA, envB, _, release = newTenantAPIEnv3(t)
+	envA, envB, _, _, release = newTenantAPIEnv3(t)
 	return
 }
 
@@ -55,7 +65,8 @@ func newTenantAPIEnv(t testing.TB) (envA, envB *apiEnv, release func()) {
 // declare different relations in it).
 var hcheckOPLSee = strings.NewReplacer("view: (ctx", "see: (ctx", "p.permits.view(ctx)", "p.permits.see(ctx)", "this.permits.view(ctx)", "this.permits.see(ctx)").Replace(hcheckOPL)
 
-func newTenantAPIEnv3(t testing.TB) (envA, envB, envC *apiEnv, release func()) {
+// tenant D: tenant A's document, in a network of its own.
+func newTenantAPIEnv3(t testing.TB) (envA, envB, envC, envD *apiEnv, release func()) {
 	// literal namespaces (no file watchers: with a contextualized provider keto builds a new
 	// Config, and with it a new namespace manager, for every call of Registry.Config)
 	parsed, perrs := schema.Parse(hcheckOPL)
@@ -95,7 +106,7 @@ func newTenantAPIEnv3(t testing.TB) (envA, envB, envC *apiEnv, release func()) {
 		}
 		return p
 	}
-	ctxer := &tenantCtxer{byTenant: map[string]*configx.Provider{"A": mk(nsA), "B": mk(nsB), "C": mk(nsC)}}
+	ctxer := &tenantCtxer{byTenant: map[string]*configx.Provider{"A": mk(nsA), "B": mk(nsB), "C": mk(nsC), "D": mk(nsA)}, netByTenant: map[string]uuid.UUID{}}
 	rctx := configx.ContextWithConfigOptions(base, configx.WithValues(map[string]interface{}{
 		config.KeyDSN: dsn.Conn, "log.level": "panic",
 		config.KeyNamespaces: nsA,
@@ -113,11 +124,21 @@ func newTenantAPIEnv3(t testing.TB) (envA, envB, envC *apiEnv, release func()) {
 		t.Fatal(err)
 	}
 	quiet(reg)
+	conn, err := reg.PopConnection(rctx)
+	if err != nil {
+		t.Fatal(err)
+	}
+	dnet := networkx.NewNetwork()
+	if err := conn.Create(dnet); err != nil {
+		t.Fatal(err)
+	}
+	ctxer.netByTenant["D"] = dnet.ID
 	ctxA := context.WithValue(rctx, tenantKey{}, "A")
 	ctxB := context.WithValue(rctx, tenantKey{}, "B")
 	read, write := reg.ReadRouter(rctx), reg.WriteRouter(rctx)
 	envA = &apiEnv{reg: reg, ctx: ctxA, read: read, write: write, chk: check.NewHandler(reg), oplFile: fa, curOPL: hcheckOPL, withReqCtx: true}
 	envB = &apiEnv{reg: reg, ctx: ctxB, read: read, write: write, chk: envA.chk, oplFile: fb, curOPL: hcheckOPLNoDoc, withReqCtx: true}
 	envC = &apiEnv{reg: reg, ctx: context.WithValue(rctx, tenantKey{}, "C"), read: read, write: write, chk: envA.chk, curOPL: hcheckOPLSee, withReqCtx: true, viewPerm: "see"}
-	return envA, envB, envC, release
+	envD = &apiEnv{reg: reg, ctx: context.WithValue(rctx, tenantKey{}, "D"), read: read, write: write, chk: envA.chk, curOPL: hcheckOPL, withReqCtx: true}
+	return envA, envB, envC, envD, release
 }
